@@ -1959,7 +1959,7 @@ func init() {
 	mc.Register(&mc.Prop{
 		ID:    "C14",
 		Level: "model_checking",
-		Rule: cliStreamRule[1:] + " Command line: goalign stats gaps (all five modes), compute entropy (-a, -g), stats maxchar and consensus (--ignore-gaps, --ignore-n), stats mutations (--unique, --ref-sequence each of the first two rows) on every 2x2 alignment over {A,C,-,W} and four others, both alphabets: the printed text must be what the documented library calls return, rendered as the command renders it. " + "Alignments (nucleotide and protein alphabet each; W = the alphabet's wildcard, N resp. X): all with L=1, n<=4 rows over {A,a,C,-,N,X,.}; L=2, n<=3 over the same 7 characters; L=3, n=1 over the 7 and n=2 over {A,a,C,-,W}; L=0, n<=2 " +
+		Rule: cliStreamRule[1:] + "(Free-running complement under the race detector: 8 goroutines doing this property's operations on objects of their own must get the values the same work gives alone.)  Command line: goalign stats gaps (all five modes), compute entropy (-a, -g), stats maxchar and consensus (--ignore-gaps, --ignore-n), stats mutations (--unique, --ref-sequence each of the first two rows) on every 2x2 alignment over {A,C,-,W} and four others, both alphabets: the printed text must be what the documented library calls return, rendered as the command renders it. " + "Alignments (nucleotide and protein alphabet each; W = the alphabet's wildcard, N resp. X): all with L=1, n<=4 rows over {A,a,C,-,N,X,.}; L=2, n<=3 over the same 7 characters; L=3, n=1 over the 7 and n=2 over {A,a,C,-,W}; L=0, n<=2 " +
 			"[thorough adds L=1,n=5 and L=3,n=2 over the 7 characters; L=2,n=4 over {A,a,C,-,W}; L=3,n=3 and L=4,n=2 over {A,C,-,W}]. " +
 			"Per alignment: MaxCharStats and Consensus with all 4 (ignoreGaps,ignoreNs), Entropy for every site in [-1,L] x removeGaps, each call executed under EVERY map iteration order at every map range it reaches (all k! orders for k<=4 keys, the 2k rotations of the sorted and reversed order beyond; unbounded product over the ranges of one call; the same alignment object for all orders), " +
 			"every leaf compared with the naive oracle and all leaves of a call with each other (exact; 1e-12 for Entropy/Pssm); CharStats, CharStatsSeq (index -1..n), CharStatsSite (site -1..L), UniqueCharacters, the count profile (NameAt/NameIndex/Count/CountAt with site -1..L, CheckLength), NbVariableSites, InformativeSites, AvgAllelesPerSite, NumGaps/FromStart/FromEnd/Openning, " +
@@ -1974,6 +1974,8 @@ func init() {
 			"entropy uses the natural logarithm (goalign's own TestEntropy), PSSM log is base 2 (documentation)",
 			"the count profile is compared on upper-case input only (DESIGN.md §5)",
 		},
+		// free-running complement: goroutines that each own their objects must get what they get alone (harness/racepass)
+		Post: func(m *mc.Master) { m.RacePass("own-stats") },
 		Tasks: func(tier string) []mc.Task {
 			return append(append(c14Tasks(tier), cliStreamTasks("C14")...), c14CLITasks()...)
 		},
